@@ -5,18 +5,17 @@ import GqlModel.ArgMap
 
   * A `reflect.Value` is a `GoVal` (`.nil` = the zero Value); whether a slice element / map entry
     has kind Interface is decided by the element type of its container.
-  * `validateVarType` mutates maps IN PLACE (`SetMapIndex`) and returns a `reflect.Value` that is
-    either its argument or a freshly made one-element slice.  Both effects are visible in the
-    result of `VariableValues`, so the model returns a pair `(ret, upd)`: the returned Value and
-    the state of the argument after the in-place updates (they differ only when a single value
-    was wrapped into a slice).
+  * `validateVarType` returns a `reflect.Value` that is its argument (maps and slices are updated
+    IN PLACE: `SetMapIndex`, `Index(i).Set`), a freshly made one-element slice (a single value
+    where a list is expected), or a fresh `[]interface{}` / `map[string]interface{}` COPY of a
+    typed slice / typed map that cannot hold a coerced item (`[]int` ← `[]int{1}`,
+    `map[string]float32` ← `[]float32{1}`).  Only the RETURNED value reaches the result of
+    `VariableValues`; the model is the function "argument ↦ returned value" (the in-place updates
+    of the caller's own variables map are not observed).
   * The recursion is on `(size of the value, list depth of the type)`; it is written with explicit
     fuel (`coerce` supplies enough: `fuelFor`), `outOfFuel` is a separate outcome.
   * Map iteration (`val.MapKeys()`, random in Go) only decides WHICH unknown key is reported; the
     model takes the association-list order and also reports the other offending keys (`alts`).
-
-  LEGACY QUIRKS of the pinned tree are isolated in the `legacy…` switches below (both repaired:
-  R14a in the tree, R14d by r14d.patch).
 -/
 namespace Gql
 open Gql.Strconv
@@ -36,34 +35,13 @@ inductive Res (α : Type)
   | outOfFuel
   deriving Inhabited
 
-/- ===================== legacy switches (R14a, R14d) ===================== -/
-
-/-- R14d: `_, err := v.validateVarType(typ.Elem, field)` — the coerced element was DISCARDED, the
-    slice kept the (in-place mutated) original element.  `false` = the repaired behaviour of
-    r14d.patch: `cval, err := …`; when the dynamic type of the element changed (a single value was
-    wrapped into a list, or a typed list was rebuilt) `cval` is stored back with
-    `val.Index(i).Set(cval)`; otherwise the element was coerced in place and `cval` IS the element
-    (see `storeElem`, `storeElemType`). -/
-def legacyDiscardNestedListResult : Bool := false
-
-/-- R14a: in the list branch the zero Value (a null) reaches `val.Type()` → reflect panic.
-    Repaired behaviour: `false` (null handled before the list branch: nullable ⇒ returned as is). -/
-def legacyNullIntoListPanics : Bool := false
-
-/-- what the element of the result slice becomes after its recursive call returned `(ret, upd)`.
-    Repaired code: `ret` (when the dynamic type is unchanged `ret` and `upd` are the same value, so
-    "store back only if the type changed" and "always take `ret`" coincide). -/
-def storeElem (ret upd : GoVal) : GoVal :=
-  if legacyDiscardNestedListResult then upd else ret
-
-/-- element type of the result slice: legacy keeps the type.  Repaired code: the slice is kept
-    (elements set in place) as long as every coerced element is assignable to its element type —
-    for the domain: the slice is a `[]interface{}`, or no element changed its dynamic type —;
+/-- element type of the result slice.  The slice is kept (items were coerced in place, or stored
+    back with `val.Index(i).Set(cval)`) as long as every coerced item is assignable to its element
+    type — for the domain: the slice is a `[]interface{}`, or no item changed its dynamic type —;
     otherwise it is copied into a fresh `[]interface{}` (`reflect.MakeSlice` + element-wise `Set`)
-    before the coerced element is stored. -/
+    before the coerced item is stored. -/
 def storeElemType (t : GoType) (before after : GoVals) : GoType :=
-  if legacyDiscardNestedListResult then t
-  else if (before.toList.map GoVal.type?) = (after.toList.map GoVal.type?) then t else .iface
+  if (before.toList.map GoVal.type?) = (after.toList.map GoVal.type?) then t else .iface
 
 /- ============================== helpers ============================== -/
 
@@ -109,9 +87,6 @@ def assignable (t? : Option GoType) (elem : GoType) : Bool :=
   | none => true
   | some t => elem = .iface || t = elem
 
-def setNotAssignableMsg (t : GoType) (elem : GoType) : Bytes :=
-  str "reflect.Value.SetMapIndex: value of type " ++ str t.name ++ str " is not assignable to type " ++ str elem.name
-
 /-- the keys of a map that the first loop of the InputObject branch would reject, in list order -/
 def unknownKeys (fields : List FieldDef) : GoFields → List Bytes
   | .nil => []
@@ -124,9 +99,10 @@ def unknownKeys (fields : List FieldDef) : GoFields → List Bytes
 /- ============================== validateVarType ============================== -/
 
 /-- the `for i := 0; i < val.Len(); i++` loop of the list branch.  `f` is the recursive call
-    `v.validateVarType(typ.Elem, ·)` at a given path; returns the elements after the loop and
-    the `upd` of the first element. -/
-def listLoop (f : Path → GoVal → Res (GoVal × GoVal)) (path : Path) (elemIsIface elemNonNull : Bool) :
+    `v.validateVarType(typ.Elem, ·)` at a given path; returns the items after the loop (every
+    item replaced by what the recursive call returned: the item itself, coerced in place, or the
+    coerced item stored back). -/
+def listLoop (f : Path → GoVal → Res GoVal) (path : Path) (elemIsIface elemNonNull : Bool) :
     Nat → GoVals → Res GoVals
   | _, .nil => .ok .nil
   | i, .cons x rest =>
@@ -136,9 +112,9 @@ def listLoop (f : Path → GoVal → Res (GoVal × GoVal)) (path : Path) (elemIs
     else
       -- `field = field.Elem()`: a nil interface becomes the zero Value (`.nil`)
       match f path' x with
-      | .ok (ret, upd) =>
+      | .ok ret =>
         match listLoop f path elemIsIface elemNonNull (i + 1) rest with
-        | .ok rest' => .ok (.cons (storeElem ret upd) rest')
+        | .ok rest' => .ok (.cons ret rest')
         | .err m p a => .err m p a
         | .panic m => .panic m
         | .outOfFuel => .outOfFuel
@@ -146,12 +122,16 @@ def listLoop (f : Path → GoVal → Res (GoVal × GoVal)) (path : Path) (elemIs
       | .panic m => .panic m
       | .outOfFuel => .outOfFuel
 
-/-- the `for _, fieldDef := range def.Fields` loop of the InputObject branch; `kvs` is the map
-    being updated in place -/
-def fieldLoop (f : Path → GType → GoVal → Res (GoVal × GoVal)) (path : Path) (elem : GoType) :
-    List FieldDef → GoFields → Res GoFields
-  | [], kvs => .ok kvs
-  | fd :: rest, kvs =>
+/-- the `for _, fieldDef := range def.Fields` loop of the InputObject branch; `elem`, `kvs`: element
+    type and entries of the map `val` at this point of the loop.  A coerced field value that is
+    not assignable to the element type (a typed map such as `map[string]float32` whose field had to
+    be wrapped into a list) makes the code continue with a COPY of the map as
+    `map[string]interface{}` (same keys: `key.String()` of a string key): the element type becomes
+    `interface{}`.  Returns element type and entries of the map after the loop. -/
+def fieldLoop (f : Path → GType → GoVal → Res GoVal) (path : Path) :
+    List FieldDef → GoType → GoFields → Res (GoType × GoFields)
+  | [], elem, kvs => .ok (elem, kvs)
+  | fd :: rest, elem, kvs =>
     let path' := path ++ [.name fd.name]
     match kvs.lookup fd.name with
     | none =>
@@ -160,22 +140,22 @@ def fieldLoop (f : Path → GType → GoVal → Res (GoVal × GoVal)) (path : Pa
         let hasUsableDefault := match fd.default with
           | some d => (match valueValueConst d with | .ok _ => true | _ => false)
           | none => false
-        if hasUsableDefault then fieldLoop f path elem rest kvs
+        if hasUsableDefault then fieldLoop f path rest elem kvs
         else .err (str "must be defined") path' []
-      else fieldLoop f path elem rest kvs
+      else fieldLoop f path rest elem kvs
     | some x =>
       if elem = .iface && x.isNil then
         if fd.type.nonNull then .err (str "cannot be null") path' []
-        else fieldLoop f path elem rest kvs          -- allow null object field and skip it
+        else fieldLoop f path rest elem kvs          -- allow null object field and skip it
       else
         match f path' fd.type x with
-        | .ok (cval, _) =>
-          -- `val.SetMapIndex(reflect.ValueOf(fieldDef.Name), cval)`
+        | .ok cval =>
+          -- `if !cval.Type().AssignableTo(val.Type().Elem()) { … copy … }`
           match cval.type? with
-          | none => fieldLoop f path elem rest (kvs.erase fd.name)   -- zero Value deletes the key
+          | none => .panic typeOnZeroMsg
           | some t =>
-            if assignable (some t) elem then fieldLoop f path elem rest (kvs.set fd.name cval)
-            else .panic (setNotAssignableMsg t elem)
+            -- `val.SetMapIndex(reflect.ValueOf(fieldDef.Name), cval)` on the map or on its copy
+            fieldLoop f path rest (if assignable (some t) elem then elem else .iface) (kvs.set fd.name cval)
         | .err m p a => .err m p a
         | .panic m => .panic m
         | .outOfFuel => .outOfFuel
@@ -191,30 +171,30 @@ def builtinScalarAccepts (name : Name) (v : GoVal) (k : Kind) : Option Bool :=
   | some .id => some (isIntLikeKind k || k = .string)
   | none => none
 
-/-- `validateVarType(typ, val)` with `v.path = path`; result `(returned Value, argument after in-place updates)` -/
-def validateVarType (s : Schema) : Nat → Path → GType → GoVal → Res (GoVal × GoVal)
+/-- `validateVarType(typ, val)` with `v.path = path`: the returned Value -/
+def validateVarType (s : Schema) : Nat → Path → GType → GoVal → Res GoVal
   | 0, _, _, _ => .outOfFuel
   | fuel + 1, path, typ, val =>
     match typ with
     | .list elemT _ _ =>
-      if !legacyNullIntoListPanics && val.isNil then .ok (val, val)      -- (repair of R14a; nullability is checked by the callers)
+      -- `if !val.IsValid() { return val, nil }`: a null where a list is expected; whether null is
+      -- allowed here has been checked by the caller
+      if val.isNil then .ok val
       else
       match val with
       | .slice t xs =>
         match listLoop (fun p x => validateVarType s fuel p elemT x) path (t = .iface) elemT.nonNull 0 xs with
-        | .ok xs' => let r := GoVal.slice (storeElemType t xs xs') xs'; .ok (r, r)
+        | .ok xs' => .ok (.slice (storeElemType t xs xs') xs')
         | .err m p a => .err m p a
         | .panic m => .panic m
         | .outOfFuel => .outOfFuel
       | _ =>
-        -- `slc := reflect.MakeSlice(reflect.SliceOf(val.Type()), 0, 0)`
+        -- `slc := reflect.MakeSlice(reflect.SliceOf(val.Type()), 0, 0)`, then the loop on `[val]`
         match val.type? with
-        | none => .panic typeOnZeroMsg                                   -- R14a
+        | none => .panic typeOnZeroMsg
         | some t =>
           match validateVarType s fuel (path ++ [.idx 0]) elemT val with
-          | .ok (ret, upd) =>
-            let xs' := GoVals.cons (storeElem ret upd) .nil
-            .ok (.slice (storeElemType t (.cons val .nil) xs') xs', upd)
+          | .ok ret => .ok (.slice (storeElemType t (.cons val .nil) (.cons ret .nil)) (.cons ret .nil))
           | .err m p a => .err m p a
           | .panic m => .panic m
           | .outOfFuel => .outOfFuel
@@ -222,7 +202,7 @@ def validateVarType (s : Schema) : Nat → Path → GType → GoVal → Res (GoV
       match s.type? name with
       | none => .panic (str "missing def for " ++ name)
       | some d =>
-        if !nonNull && val.isNil then .ok (val, val)
+        if !nonNull && val.isNil then .ok val
         else
           match d.kind with
           | .enum =>
@@ -233,7 +213,8 @@ def validateVarType (s : Schema) : Nat → Path → GType → GoVal → Res (GoV
               if !(isIntLikeKind k || k = .string) then .err (str "enums must be ints or strings") path []
               else
                 let sv := val.reflectString
-                if d.enumValues.any (fun ev => equalFoldAscii sv ev.name) then .ok (val, val)
+                -- `if val.String() == enumVal.Name`: an exact match (no `strings.EqualFold` any more)
+                if d.enumValues.any (fun ev => sv = ev.name) then .ok val
                 else .err (sv ++ str " is not a valid " ++ d.name) path []
           | .scalar =>
             match val.type? with
@@ -241,8 +222,8 @@ def validateVarType (s : Schema) : Nat → Path → GType → GoVal → Res (GoV
             | some t =>
               let k := t.kind
               match builtinScalarAccepts name val k with
-              | none => .ok (val, val)              -- assume custom scalars are ok
-              | some true => .ok (val, val)
+              | none => .ok val                     -- assume custom scalars are ok
+              | some true => .ok val
               | some false => .err (str "cannot use " ++ str k.name ++ str " as " ++ name) path []
           | .inputObject =>
             match val with
@@ -251,8 +232,8 @@ def validateVarType (s : Schema) : Nat → Path → GType → GoVal → Res (GoV
               match unknownKeys d.fields kvs with
               | k :: others => .err (str "unknown field") (path ++ [.name k]) others
               | [] =>
-                match fieldLoop (fun p t x => validateVarType s fuel p t x) path elem d.fields kvs with
-                | .ok kvs' => let r := GoVal.map elem kvs'; .ok (r, r)
+                match fieldLoop (fun p t x => validateVarType s fuel p t x) path d.fields elem kvs with
+                | .ok (elem', kvs') => .ok (.map elem' kvs')
                 | .err m p a => .err m p a
                 | .panic m => .panic m
                 | .outOfFuel => .outOfFuel
@@ -322,7 +303,7 @@ def coerceSupplied (s : Schema) (op : OperationDef) (v : VarDef) (coerced : GoFi
     | .error m => .err m (varPath v) []
     | .ok rv =>
       match validateVarType s (fuelFor s op rv) (varPath v) v.type rv with
-      | .ok (rval, _) =>
+      | .ok rval =>
         -- `coercedVars[v.Variable] = rval.Interface()`
         if rval.isNil then .panic ifaceOnZeroMsg else .ok (coerced.set v.var rval)
       | .err m p a => .err m p a
